@@ -21,6 +21,8 @@ EXPLANATION = (
     "'shape not recognised'.")
 
 ITER_SOURCES = {"std::iter::IntoIterator::into_iter", "core::slice::iter", "std::vec::Vec::drain", "std::vec::Vec::iter"}
+# a membership scan of a duplicate-free list finds the same (only) match from either end
+SCAN_SOURCES = ITER_SOURCES | {"std::iter::Iterator::rev"} | set(mir.TRANSPARENT_CALLS)
 
 
 def find_merge(lib):
@@ -145,12 +147,12 @@ def check_merge(r, lib, only_order=False):
     def inner_of(l):
         return [x for x in loops if x["blocks"] < l["blocks"]]
     in1, in2 = inner_of(l1), inner_of(l2)
-    ok_in1 = len(in1) == 1 and in1[0]["root"] == ("arg", 2) and all(c in ITER_SOURCES or c in mir.TRANSPARENT_CALLS for c in in1[0]["chain"])
+    ok_in1 = len(in1) == 1 and in1[0]["root"] == ("arg", 2) and all(c in SCAN_SOURCES for c in in1[0]["chain"])
     r.ob("M3.scan-of-other", fn, ok_in1, "each item of parameter 1 is looked up by a front-to-back scan of parameter 2" if ok_in1 else
          "shape not recognised: inner scans of pass 1: %s" % [(term_s(x["root"]), x["chain"]) for x in in1], site=in1[0]["next"] if in1 else l1["next"], key="M3|scan")
     def is_res(t):
         return t == ("local", res) or (t[0] == "call" and len(t) > 3 and creators and t[3] == creators[0])
-    ok_in2 = len(in2) == 1 and is_res(in2[0]["root"]) and all(c in ITER_SOURCES or c in mir.TRANSPARENT_CALLS for c in in2[0]["chain"])
+    ok_in2 = len(in2) == 1 and is_res(in2[0]["root"]) and all(c in SCAN_SOURCES for c in in2[0]["chain"])
     r.ob("M4.scan-of-result", fn, ok_in2, "each item of parameter 2 is looked up by a front-to-back scan of the accumulated result" if ok_in2 else
          "shape not recognised: inner scans of pass 2: %s" % [(term_s(x["root"]), x["chain"]) for x in in2], site=in2[0]["next"] if in2 else l2["next"], key="M4|scan")
     if not (ok_in1 and ok_in2):
@@ -316,7 +318,15 @@ def iteration_outcomes(b, l, inner, res):
                             truth = not truth
                         if b.is_unreachable_block(blk2):
                             continue
-                        stack.append((blk2, tuple(sorted(bd.items(), key=lambda kv: str(kv[0]))), frozenset(ev | {("payload-eq", pair, a_in, truth)}), npushed))
+                        bd2 = bd
+                        if truth and a_in and set(pair) == {("inner",), ("outer",)}:
+                            # precondition of the property: the scanned list is duplicate-free, so the membership test
+                            # of one outer item succeeds for at most one scanned item - a second success is infeasible
+                            if bd.get(("matched", bb)):
+                                continue
+                            bd2 = dict(bd)
+                            bd2[("matched", bb)] = True
+                        stack.append((blk2, tuple(sorted(bd2.items(), key=lambda kv: str(kv[0]))), frozenset(ev | {("payload-eq", pair, a_in, truth)}), npushed))
                     continue
         for s in succ:
             stack.append((s, tuple(sorted(bd.items(), key=lambda kv: str(kv[0]))), frozenset(ev), npushed))
